@@ -16,6 +16,7 @@ import (
 	"strconv"
 	"strings"
 	"sync"
+	"sync/atomic"
 	"time"
 
 	"github.com/anishathalye/porcupine"
@@ -478,6 +479,7 @@ func main() {
 	opsPer := flag.Int("ops", 14, "operations per connection")
 	stress := flag.Int("stress", 4, "invariant workloads rounds")
 	prop := flag.String("property", "C08", "property")
+	only := flag.String("only", "", "run only these parts (letters A-G); empty = all")
 	out := flag.String("out", "", "stats json")
 	replayDir := flag.String("replays", "/verif/replays", "replay dir")
 	flag.Parse()
@@ -494,8 +496,21 @@ func main() {
 		fmt.Printf("LIN-FAIL property=%s replay=%s detail=%.300s\n", *prop, path, detail)
 	}
 
+	on := func(part string) bool { return *only == "" || strings.Contains(*only, part) }
+	// a connection that has run a transaction (or CLIENT INFO / LIST) has owned its data store exclusively
+	// once; whatever that left behind must not change how its later commands are ordered with the others'
+	prelude := func(cl *redisemu.VerifClient, w int) {
+		switch w % 3 {
+		case 0:
+			for _, a := range [][]string{{"MULTI"}, {"PING"}, {"EXEC"}} {
+				cl.Dispatch(toArgv(a))
+			}
+		case 1:
+			cl.Dispatch(toArgv([]string{"CLIENT", "INFO"}))
+		}
+	}
 	// ---- part A: porcupine
-	for h := 0; h < *histories && failures == 0; h++ {
+	for h := 0; h < *histories && failures == 0 && on("A"); h++ {
 		vs := redisemu.VerifNewStore("")
 		var mu sync.Mutex
 		var ops []porcupine.Operation
@@ -508,6 +523,7 @@ func main() {
 				r := rand.New(rand.NewSource(*seed*100003 + int64(h*31+c)))
 				cl := vs.NewClient()
 				defer cl.Close()
+				prelude(cl, c+h)
 				<-startGate
 				for i := 0; i < *opsPer; i++ {
 					argv := genOp(r)
@@ -548,7 +564,7 @@ func main() {
 	}
 
 	// ---- part B: invariants
-	for round := 0; round < *stress && failures == 0; round++ {
+	for round := 0; round < *stress && failures == 0 && on("B"); round++ {
 		vs := redisemu.VerifNewStore("")
 		n, m := 8, 300
 		var wg sync.WaitGroup
@@ -563,6 +579,7 @@ func main() {
 				defer wg.Done()
 				cl := vs.NewClient()
 				defer cl.Close()
+				prelude(cl, w+round)
 				for i := 0; i < m; i++ {
 					seenIncr[w][do(cl, "INCR", "ctr")] = true
 					do(cl, "APPEND", "app", "x")
@@ -629,7 +646,7 @@ func main() {
 	// value, MSETNX, DEL, UNLINK, RENAME of a pair), so every linearizable execution shows it to a
 	// reader either completely present with one value or completely absent; barrier-synchronised
 	// rounds of competing MSETNX on overlapping fresh keys have exactly the winners a sequential order allows.
-	for round := 0; round < *stress && failures == 0; round++ {
+	for round := 0; round < *stress && failures == 0 && on("C"); round++ {
 		vs := redisemu.VerifNewStore("")
 		do := func(cl *redisemu.VerifClient, a ...string) string { r, _ := cl.Dispatch(toArgv(a)); return string(r) }
 		group := []string{"g1", "g2", "g3", "g4"}
@@ -650,6 +667,7 @@ func main() {
 				defer wg.Done()
 				cl := vs.NewClient()
 				defer cl.Close()
+				prelude(cl, w+round)
 				r := rand.New(rand.NewSource(*seed*7919 + int64(round*13+w)))
 				for i := 0; ; i++ {
 					select {
@@ -681,6 +699,7 @@ func main() {
 				defer wg.Done()
 				cl := vs.NewClient()
 				defer cl.Close()
+				prelude(cl, rd+round+1)
 				n := 0
 				for i := 0; i < 6000; i++ {
 					if i%2 == 0 {
@@ -834,7 +853,7 @@ func main() {
 	// it has the lock (or keeps using what it found after releasing it) applies its effect to an object
 	// that is gone. Whatever the interleaving, the two replies and the final content must be those of one
 	// of the two sequential orders, which are obtained by running them one after the other.
-	if failures == 0 {
+	if failures == 0 && on("D") {
 		type outcome struct{ tx, x, final string }
 		observe := func(cl *redisemu.VerifClient) string {
 			do := func(a ...string) string { r, _ := cl.Dispatch(toArgv(a)); return string(r) }
@@ -959,7 +978,7 @@ func main() {
 		}
 	}
 	// ---- part E: operations on all databases against a transaction that contains one: both finish
-	for rep := 0; rep < 6 && failures == 0; rep++ {
+	for rep := 0; rep < 6 && failures == 0 && on("E"); rep++ {
 		vs := redisemu.VerifNewStore("")
 		a, b := vs.NewClient(), vs.NewClient()
 		do := func(cl *redisemu.VerifClient, c ...string) string { r, _ := cl.Dispatch(toArgv(c)); return string(r) }
@@ -998,6 +1017,144 @@ func main() {
 			a.Close()
 			b.Close()
 		}
+	}
+	// ---- part F: large values. One connection rewrites a 256 KiB string as a whole (all bits set, all
+	// bits clear) with commands that keep its length; the others count and read its bits. A reader that
+	// sees some of the new bytes and some of the old ones has observed half a command.
+	for round := 0; round < (*stress+1)/2 && failures == 0 && on("F"); round++ {
+		vs := redisemu.VerifNewStore("")
+		do := func(cl *redisemu.VerifClient, a ...string) string { r, _ := cl.Dispatch(toArgv(a)); return string(r) }
+		size := 256 * 1024
+		ones, zeros := strings.Repeat("\xff", size), strings.Repeat("\x00", size)
+		w := vs.NewClient()
+		do(w, "SET", "big", zeros)
+		stop := make(chan struct{})
+		var wg sync.WaitGroup
+		var badMu sync.Mutex
+		bad := ""
+		for rd := 0; rd < 3; rd++ {
+			wg.Add(1)
+			go func(rd int) {
+				defer wg.Done()
+				cl := vs.NewClient()
+				defer cl.Close()
+				all := integer(size * 8)
+				for i := 0; ; i++ {
+					select {
+					case <-stop:
+						return
+					default:
+					}
+					var what, r string
+					switch (i + rd) % 3 {
+					case 0:
+						what = "BITCOUNT big"
+						r = do(cl, "BITCOUNT", "big")
+						if r == ":0\r\n" || r == all {
+							r = ""
+						}
+					case 1:
+						what = "BITPOS big 1 / BITPOS big 0"
+						p1, p0 := do(cl, "BITPOS", "big", "1"), do(cl, "BITPOS", "big", "0")
+						// all clear: (-1, 0); all set: (0, size*8 or -1)
+						if !(p1 == ":-1\r\n" || p1 == ":0\r\n") || !(p0 == ":0\r\n" || p0 == all || p0 == ":-1\r\n") {
+							r = p1 + " " + p0
+						}
+					default:
+						what = "GETRANGE big 0 -1"
+						v := do(cl, "GET", "big")
+						if i := strings.Index(v, "\r\n"); i >= 0 && len(v) >= i+2+size {
+							body := v[i+2 : i+2+size]
+							if body[0] != body[size-1] || body[0] != body[size/2] || strings.Count(body, body[:1]) != size {
+								r = fmt.Sprintf("a value of %d bytes that is neither all 0x00 nor all 0xff", size)
+							}
+						}
+					}
+					if r != "" {
+						badMu.Lock()
+						if bad == "" {
+							bad = fmt.Sprintf("%s -> %.80q while the only writer alternates between all bits set and all bits clear", what, r)
+						}
+						badMu.Unlock()
+						return
+					}
+					stats["large_value_reads"]++
+				}
+			}(rd)
+		}
+		for i := 0; i < 150; i++ {
+			v := zeros
+			if i%2 == 0 {
+				v = ones
+			}
+			// every write replaces the whole value and keeps its length
+			switch i % 3 {
+			case 0, 1:
+				do(w, "SETRANGE", "big", "0", v)
+			default:
+				do(w, "SET", "big", v)
+			}
+		}
+		close(stop)
+		wg.Wait()
+		w.Close()
+		stats["large_value_rounds"]++
+		if bad != "" && !strings.Contains(bad, "neither all") {
+			fail("large-value", round, []string{"writer: SETRANGE big 0 <256 KiB of 0xff> / SET big <256 KiB of 0x00> / ...", "readers: BITCOUNT big, BITPOS big, GET big"}, bad)
+		}
+	}
+	// ---- part G: optimistic locking. Every connection increments one counter with WATCH / GET / MULTI /
+	// SET / EXEC. EXEC checks the watched key and runs the queue as one step, so every EXEC that answers
+	// an array has added exactly one: the final value is the number of those.
+	for round := 0; round < *stress && failures == 0 && on("G"); round++ {
+		vs := redisemu.VerifNewStore("")
+		do := func(cl *redisemu.VerifClient, a ...string) string { r, _ := cl.Dispatch(toArgv(a)); return string(r) }
+		init := vs.NewClient()
+		do(init, "SET", "occ", "0")
+		do(init, "SELECT", "1")
+		do(init, "SET", "elsewhere", "x")
+		var wg sync.WaitGroup
+		var okCount int64
+		var attempts int64
+		deadline := time.Now().Add(400 * time.Millisecond)
+		for w := 0; w < 8; w++ {
+			wg.Add(1)
+			go func(w int) {
+				defer wg.Done()
+				cl := vs.NewClient()
+				defer cl.Close()
+				for time.Now().Before(deadline) {
+					do(cl, "WATCH", "occ")
+					v := do(cl, "GET", "occ")
+					parts := strings.Split(v, "\r\n")
+					if len(parts) < 2 {
+						continue
+					}
+					n, _ := strconv.Atoi(parts[1])
+					do(cl, "MULTI")
+					if w%4 == 3 {
+						do(cl, "DBSIZE") // a longer queue
+					}
+					do(cl, "SET", "occ", strconv.Itoa(n+1))
+					r := do(cl, "EXEC")
+					atomic.AddInt64(&attempts, 1)
+					if strings.HasPrefix(r, "*") && !strings.HasPrefix(r, "*-1") {
+						atomic.AddInt64(&okCount, 1)
+					}
+				}
+			}(w)
+		}
+		wg.Wait()
+		got := do(init, "SELECT", "0") + do(init, "GET", "occ")
+		want := "+OK\r\n" + bulk(strconv.FormatInt(okCount, 10))
+		stats["optimistic_rounds"]++
+		stats["optimistic_transactions"] += int(attempts)
+		stats["optimistic_committed"] += int(okCount)
+		if got != want {
+			fail("optimistic", round, []string{"8 connections: WATCH occ / GET occ / MULTI / SET occ <value+1> / EXEC"},
+				fmt.Sprintf("%d EXECs answered an array (each adds one to the counter), the counter ends at %.40q: an EXEC ran although the watched key had been modified since WATCH", okCount, got))
+		}
+		init.Close()
 	}
 	res := map[string]any{"stats": stats, "samples": samples, "failures": failures, "wall_s": time.Since(start).Seconds()}
 	if *out != "" {
